@@ -105,17 +105,42 @@ func formatFile(path string) error {
 	f.Close()
 
 	if *writeInPlace {
-		f, err := os.Create(path)
-		if err != nil {
-			return fmt.Errorf("Failed to open path to rewrite: %w", err)
-		}
-		_, err = f.Write(out.Bytes())
-		if err != nil {
+		if err := writeFileAtomic(path, out.Bytes()); err != nil {
 			return fmt.Errorf("Failed to write to output: %w", err)
 		}
-		f.Close()
 	} else {
 		fmt.Println(out.String())
+	}
+	return nil
+}
+
+// writeFileAtomic replaces path with data by writing a temporary file in the same directory and renaming it over path,
+// so that a failure at any point leaves the previous contents of path untouched.
+func writeFileAtomic(path string, data []byte) error {
+	mode := os.FileMode(0o644)
+	if fi, err := os.Stat(path); err == nil {
+		mode = fi.Mode().Perm()
+	}
+	tmp, err := os.CreateTemp(filepath.Dir(path), filepath.Base(path)+".tmp*")
+	if err != nil {
+		return err
+	}
+	if _, err := tmp.Write(data); err != nil {
+		tmp.Close()
+		os.Remove(tmp.Name())
+		return err
+	}
+	if err := tmp.Close(); err != nil {
+		os.Remove(tmp.Name())
+		return err
+	}
+	if err := os.Chmod(tmp.Name(), mode); err != nil {
+		os.Remove(tmp.Name())
+		return err
+	}
+	if err := os.Rename(tmp.Name(), path); err != nil {
+		os.Remove(tmp.Name())
+		return err
 	}
 	return nil
 }
